@@ -190,7 +190,7 @@ class C17(Property):
         hist = []
         lines = []
         tags = []
-        for _ in range(ctx.n(220, 3000)):
+        for _ in range(ctx.n(220, 1500)):
             h = gen_history(ctx, rng.randint(1, ctx.n(12, 40)))
             init = h["init"]
             ep_list = [init["endpoint"]] * init["dims"] if isinstance(init["endpoint"], bool) else list(init["endpoint"])
@@ -253,6 +253,67 @@ class C17(Property):
                 tags.append(("check", dict(a=a, b=b), "ok", None))
             except Exception as e:  # noqa
                 tags.append(("check", dict(a=a, b=b), "err " + kind_of(e), None))
+        # Grid.match on pairs of grids (both grids are mutated; the two float32 comparisons are inputs of the model)
+        for _ in range(ctx.n(200, 2500)):
+            a, b = gen_init(rng, True), gen_init(rng, True)
+            if rng.random() < 0.8:
+                b = dict(b, dims=a["dims"], endpoint=a["endpoint"] if rng.random() < 0.8 else b["endpoint"])
+                for k in ("extent", "gpts", "sampling"):
+                    if b[k] is not None and b[k][0] == "q" and len(b[k][1]) != b["dims"]:
+                        b[k] = ["s", b[k][1][0]]
+                if isinstance(b["endpoint"], list) and len(b["endpoint"]) != b["dims"]:
+                    b["endpoint"] = False
+            if rng.random() < 0.3:
+                b = dict(b, **{k: a[k] for k in rng.sample(["extent", "gpts", "sampling"], 2)})
+            if rng.random() < 0.7:
+                a, b = dict(a, locks=rng.choice(["FFF", "FFF", "FTF", "TFF"])), dict(b, locks=rng.choice(["FFF", "FFF", "FTF", "TFF"]))
+            try:
+                ga, gb = make_grid(a), make_grid(b)
+            except Exception:  # noqa
+                continue
+            sa, sb = snap(ga), snap(gb)
+            ck = rng.random() < 0.3
+            try:
+                with np.errstate(all="ignore"):
+                    c1 = bool(np.any(np.array(ga.extent, np.float32) != np.array(gb.extent, np.float32)))
+                    c3 = bool(np.allclose(np.array(ga.sampling, np.float32), np.array(gb.sampling, np.float32)))
+            except Exception:  # noqa  (broadcasting of different dimensions: not modelled)
+                continue
+            # c3 is evaluated by the code after the extent / gpts phases: recompute it on copies that went through them
+            try:
+                g1, g2 = make_grid(a), make_grid(b)
+                out = "ok"
+                try:
+                    g1.match(g2, check_match=ck)
+                except Exception as e:  # noqa
+                    out = "err:" + kind_of(e)
+                # replay the first two phases on fresh copies to observe what the sampling comparison saw
+                h1, h2 = make_grid(a), make_grid(b)
+                try:
+                    if ck:
+                        h1.check_match(h2)
+                    if h2.extent is None:
+                        h2.extent = h1.extent
+                    elif c1:
+                        h1.extent = h2.extent
+                    if h2.gpts is None:
+                        h2.gpts = h1.gpts
+                    elif h1.gpts != h2.gpts:
+                        h1.gpts = h2.gpts
+                    with np.errstate(all="ignore"):
+                        c3 = bool(np.allclose(np.array(h1.sampling, np.float32), np.array(h2.sampling, np.float32)))
+                except Exception:  # noqa
+                    pass
+            except Exception:  # noqa
+                continue
+            lines.append(" ".join(["match", grid_s(sa), grid_s(sb), bool_s(ck), bool_s(c1), bool_s(c3)]))
+            # IEEE boundary: any quotient extent / sampling among the values the call has seen (initial, intermediate, final)
+            snaps = [sa, sb, snap(g1), snap(g2), snap(h1), snap(h2)]
+            allr = [r for x in snaps if x["extent"] is not None for r in x["extent"]]
+            alld = [d for x in snaps if x["sampling"] is not None for d in x["sampling"]]
+            nb = near_ceil_boundary(dict(extent=allr, sampling=alld), ["E", None])
+            tags.append(("match", dict(a=a, b=b, check=ck, c1=c1, c3=c3), (snap(g1), snap(g2), out), nb))
+            ctx.count("match:" + out)
         # malformed requests must be rejected, not guessed
         for bad in ["step 2 F,F 1,1 4,4 1/4 FFF X s:1", "step 2 F,F 1,1 4,4 1/4,1/4 FF E s:1", "init 2 F FFF s:1 s:x none", "frobnicate"]:
             lines.append(bad)
@@ -291,6 +352,13 @@ class C17(Property):
                 ok = len(t) == 7 and same_state(parse_grid(t[:6]), final) and (t[6] == "_" and not steps or t[6].split(",") == steps)
                 ctx.agree("Grid history (run)", case, out, grid_s(final) + " " + list_s(steps), ok=ok)
                 ctx.traces += 1
+            elif kind == "match":
+                s1, s2, outcome = impl
+                ok = len(t) == 13 and t[12] == outcome and same_state(parse_grid(t[:6]), s1) and same_state(parse_grid(t[6:12]), s2)
+                if not ok and flag:
+                    ctx.boundary += 1
+                    continue
+                ctx.agree("Grid.match", case, out, grid_s(s1) + " " + grid_s(s2) + " " + outcome, ok=ok)
             elif kind == "check":
                 ctx.agree("Grid.check_match", case, out, impl)
             else:
@@ -392,7 +460,7 @@ class C17(Property):
 
     def conformance(self, ctx: Ctx):
         rng = ctx.rng
-        for _ in range(ctx.n(400, 6000)):
+        for _ in range(ctx.n(400, 4000)):
             h = gen_history(ctx, rng.randint(1, ctx.n(12, 40)), valid=True)
             self.run_history(ctx, h, fill=rng)
             ctx.case(h, nontrivial=len(h["ops"]) > 1)
